@@ -26,7 +26,7 @@ ASSUMPTIONS = [
     "entries disappear only through the explicit clear / reduce_size steps of the history (outputs are small picklable tuples)",
     "async carriers are judged like plain functions; partial carriers are only judged for values (C02): joblib keys them on their literal call arguments",
 ]
-SHARDS = {"quick": 8, "thorough": 16}
+SHARDS = {"quick": 16, "thorough": 16}
 
 prepare = c02.prepare
 finish = c02.finish
@@ -98,4 +98,4 @@ def run_case(spec):
 
 
 def shard(ctx):
-    ctx.hyp_run(strategy(), max_examples=ctx.pick(120, 2000))
+    ctx.hyp_run(strategy(), max_examples=ctx.pick(150, 2000))
